@@ -14,7 +14,7 @@ from mc.models import validator_table as VT
 
 ID = "C06"
 LEVEL = "exploration"
-REQUIRED_OUTCOMES = ["corrupt:refused", "converse:written", "converse:enum-written", "order:refused-whatever-was-validated-first",
+REQUIRED_OUTCOMES = ["corrupt:refused", "corrupt:refused-after-a-good-write", "converse:written", "converse:enum-written", "order:refused-whatever-was-validated-first",
                      "position:nested-variant",
                      "position:image-in-cell", "position:layered-product-release"]
 
@@ -204,9 +204,17 @@ def get_base(base):
     return build, {"ci": positions_ci, "im": positions_im, "ti": positions_ti}[fmt], (_ti_dumps if fmt == "ti" else None)
 
 
-def eval_corruption(base, label, vi):
+def eval_corruption(base, label, vi, warm=False):
+    """warm: the still valid object is written (and validated) successfully BEFORE the value is put in - an object that was
+    fine a moment ago must be refused all the same ("validated already" marks, memoised validators, copies kept by a writer)"""
     build, positions, dumper = get_base(base)
     obj = build()
+    if warm:
+        r = call(dumper, obj) if dumper else call(obj.dumps)
+        if r[0] != "ok":
+            raise RuntimeError("base %s cannot be written" % base)
+        call(obj.validate)
+        call(dumper, obj) if dumper else call(obj.dumps)
     for lab, kind, setter, values in positions(obj):
         if lab == label:
             vals = values if values is not None else VT.corrupt_values(kind)
@@ -417,15 +425,18 @@ def run_unit(unit, acc):
             npos += 1
             vals = values if values is not None else VT.corrupt_values(kind)
             for vi in range(len(vals)):
-                o = eval_corruption(base, label, vi)
+              for warm in (False, True):
+                o = eval_corruption(base, label, vi, warm)
                 acc.ev()
                 if o["result"] not in ("TypeError", "ValueError"):
-                    acc.violation("accepted:" + (kind or label.split(".")[-1]), {"kind": "corrupt", "base": base, "label": label, "vi": vi}, o,
-                                  "%s with %s = %s: dumps() %s (expected TypeError/ValueError)"
-                                  % (base, label, o["value"], "returned text" if o["result"] == "text returned" else "raised " + o["result"]))
+                    acc.violation("accepted:" + (kind or label.split(".")[-1]) + (":after-a-good-write" if warm else ""),
+                                  {"kind": "corrupt", "base": base, "label": label, "vi": vi, "warm": warm}, o,
+                                  "%s%s with %s = %s: dumps() %s (expected TypeError/ValueError)"
+                                  % (base, " (written successfully just before)" if warm else "", label, o["value"],
+                                     "returned text" if o["result"] == "text returned" else "raised " + o["result"]))
                 else:
-                    acc.outcome("corrupt:refused")
-                acc.nontriv((base, label, vi))
+                    acc.outcome("corrupt:refused-after-a-good-write" if warm else "corrupt:refused")
+                acc.nontriv((base, label, vi, warm))
             if label.startswith("variant[") and "-" in label.split("]")[0]:
                 acc.outcome("position:nested-variant")
             if label.startswith("image["):
@@ -496,7 +507,7 @@ def replay(case):
         ref, o = eval_locale(None), eval_locale(case["lc"])
         return {"differs_from_utf8_mode": o[case["fmt"]] != ref[case["fmt"]], "result": o[case["fmt"]][0]}
     if case["kind"] == "corrupt":
-        return eval_corruption(case["base"], case["label"], case["vi"])
+        return eval_corruption(case["base"], case["label"], case["vi"], case.get("warm", False))
     if case["kind"] == "order":
         o = eval_order(case["first"], case["bases"])
         return {"accepted": [x[:3] for x in o["bad"]][:8]}
